@@ -169,6 +169,7 @@ type Session struct {
 	History         []SpecState    // committed spec states, History[0] = fresh file
 	Reach           map[int]string // commit number -> physical pages (with content hashes) the committed state depends on
 	resized         bool           // max size was changed on a reopen
+	SparseCrash     bool           // CrashCheck samples the boundaries of this (long) log
 	boundPages      uint64         // session-only limit used when opening an unbounded file (0: none)
 	extentLimit     uint64         // C14: no write beyond this after a shrink (0 = unchecked)
 	LastCommit      string         // result of the last Commit
